@@ -54,6 +54,9 @@ def gen_world_desc(rng, nlooms=(1, 2), ncpus=(1, 4), nprocs=(1, 2), nthreads=(1,
         # names whose order is sensitive to how they are compared: '-' sorts before '.', case matters, prefixes
         pool = ["mn.1", "mn-ib.1", "mn1.Ab", "mn1.aB", "MN.1", "mn.10", "mn.2", "m.n", "mn", "mn-", "mn.1.x", "Mn.1", "n0de.0", "node.00"]
         names = rng.sample(pool, nl)
+    if rng.chance(8):
+        # the host is what precedes the first dot; the rest of a loom name may contain dots too
+        names = [n + rng.choice([".1", ".x.y", ""]) if "." in n else n for n in names]
     allprocs = []
     for li in range(nl):
         nc = rng.randint(*ncpus)
@@ -113,7 +116,7 @@ def gen_world_desc(rng, nlooms=(1, 2), ncpus=(1, 4), nprocs=(1, 2), nthreads=(1,
     if rng.chance(6):
         # the machine's clock origin: times in the output are relative to the first event, whatever the clocks' magnitude
         d["base_clock"] = rng.choice([4 * 10 ** 12, 2 ** 53 + 12345, 2 ** 62, 2 ** 63 - 10 ** 15])
-    if models and rng.chance(12):
+    if (models and rng.chance(12)) or (not models and rng.chance(6)):
         # each model is required by only some of the threads (possibly not by the last one, possibly not by the one using it)
         d["require_split"] = rng.u64()
     if rng.chance(5):
@@ -189,6 +192,13 @@ class Gen:
     def emit(self, th, mcv, payload=b"", jumbo=None, dt=None):
         if dt is None:
             dt = 1 if self.rng.chance(self.k["tight"]) else 1 + self.rng.below(1000)
+            x = self.rng.below(100)
+            if x < 4 and self.actions and self.actions[-1][0] == self.th.index(th):
+                dt = 0          # same instant as the previous event of the same thread (ties across threads stay out: see ASSUMPTIONS)
+            elif x < 6:
+                # gaps that do not fit in 32 bits (their sum stays far below the hour at which the emulator
+                # takes two streams for unsynchronised)
+                dt = self.rng.choice([10 ** 6, 2 ** 31 + 5, 2 ** 32 + 7])
         self.actions.append([self.th.index(th), mcv, payload.hex(), None if jumbo is None else jumbo.hex(), dt])
         self.m.emit(th, mcv, payload, jumbo, dt)
 
@@ -524,6 +534,17 @@ class Gen:
             return False
         th = r.choice(alive)
         if th.state == "U":
+            if r.chance(6):
+                # quantities tracked "always" do not wait for the thread to start: a flush (and, with the kernel
+                # model, a context switch) before the first OHx shows in the thread's row like any other
+                if "kernel" in self.w.models and r.chance(50):
+                    self.emit(th, "KCO")
+                    self.emit(th, "KCI")
+                    self.probe("always-tracked value before the thread's first OHx")
+                    return True
+                if self.act_flush(th):
+                    self.probe("always-tracked value before the thread's first OHx")
+                    return True
             return self.act_state(th)
         k = self.k
         for _ in range(6):
@@ -934,6 +955,10 @@ def run_machine_case(case, ctx, keys_filter=None, post=None, extra_flags=(), on_
         foreign = tf.foreign_paths(Rng(case["world"]["foreign"]), streams) if case["world"].get("foreign") else None
         tf.write_trace(tdir, streams, order=case.get("order"), extra_files=extra, foreign=foreign)
         flags = (["-l"] if case.get("lint") else []) + list(case.get("emuflags", [])) + list(extra_flags)
+        if int(ihash(case["actions"])[6:10], 16) % 20 == 7 and "-b" not in flags:
+            # (not together with -b: a model that is only forced on has none of the metadata its breakdown asks for)
+            # all models forced on: the models the trace requires behave as before, the others see no events
+            flags = ["-a"] + flags
         targ, tcwd = ctx.spell(tdir, int(ihash(case["actions"])[:6], 16))
         status, out, err = ctx.run_tool("ovniemu", flags + [targ], cwd=tcwd)
         verdict = emu_verdict(status, err)
